@@ -180,7 +180,7 @@ def main_check(pid, spec, tier, seed, replay=None):
     for fam in spec.FAMILIES:
         cases = []
         for k in known:
-            if k["state"] == "open" and k["witness"] and (k["family"] in (None, fam.name)):
+            if k["state"] == "open" and k["witness"] and (k["family"] in (None, fam.name)) and (k["family"] == fam.name or getattr(fam, "takes_witnesses", True)):
                 cases.append(k["witness"])
         cp = os.path.join(core.ROOT, "corpus", fam.sub + "." + fam.name + ".cases")
         if os.path.exists(cp):
